@@ -123,7 +123,7 @@ func c08NewWorld() (*c08World, error) {
 	return w, nil
 }
 
-func (w *c08World) user(i int) sdk.AccAddress { return w.users[i] }
+func (w *c08World) user(i int) sdk.AccAddress    { return w.users[i] }
 func (w *c08World) uaddr(i int, up bool) c08Addr { return c08Addr{uint64(i + 2), up} }
 
 func (w *c08World) sid(s string) uint64 {
@@ -175,7 +175,7 @@ func c08CoinsCoq(cs []c08Coin) string {
 
 type c08Sub struct {
 	Name, Value, Data uint64
-	Expires          int64
+	Expires           int64
 }
 type c08Name struct {
 	Key     uint64
@@ -210,16 +210,16 @@ type c08Bal struct {
 	Amt   int64
 }
 type c08Obs struct {
-	Height  int64
-	Names   []c08Name
-	Sales   []c08Sale
-	Bids    []c08BidRec
-	Prims   []c08Prim
-	Inits   []c08Addr
-	Bank    []c08Bal
+	Height   int64
+	Names    []c08Name
+	Sales    []c08Sale
+	Bids     []c08BidRec
+	Prims    []c08Prim
+	Inits    []c08Addr
+	Bank     []c08Bal
 	ModExtra map[string]*big.Int // module balances in denoms outside c08BankDenoms
-	str     string
-	parts   [5]string // names, forsale, bids, primary, inits as Coq lists
+	str      string
+	parts    [5]string // names, forsale, bids, primary, inits as Coq lists
 }
 
 func (o *c08Obs) name(key string) *c08Name {
